@@ -103,8 +103,10 @@ ALL = {"basic": m_basic, "if": m_if, "func": m_func, "names": m_unsorted_names, 
 
 def inputs_for(name, rnd):
     x = rnd.standard_normal((2, 3)).astype(np.float32)
-    if name in ("if", "if_forwarding", "docstring_only", "unsorted_subgraph"):
+    if name == "if":
         return [{"x": x, "cond": np.array(c)} for c in (True, False)]
+    if name in ("if_forwarding", "docstring_only", "unsorted_subgraph", "inline_in_branch"):
+        return [{"x": x, "c": np.array(c)} for c in (True, False)]
     return [{"x": x}]
 
 
@@ -310,3 +312,54 @@ def m_unsorted_subgraph():
 
 
 ALL.update({"docstring_only": m_docstring_only, "unsorted_subgraph": m_unsorted_subgraph})
+
+
+def m_denotations():
+    """Type and dimension denotations on every carrier: a graph input, a NON-input initializer's value-info, a node output."""
+    def vi_den(name, shape, type_den, dim_dens):
+        v = helper.make_tensor_value_info(name, F, list(shape))
+        v.type.denotation = type_den
+        for d, den in zip(v.type.tensor_type.shape.dim, dim_dens):
+            if den:
+                d.denotation = den
+        return v
+    w = init("w_den", np.ones((2, 3)))
+    nodes = [helper.make_node("Add", ["x", "w_den"], ["h"], name="add"), helper.make_node("Relu", ["h"], ["y"], name="relu")]
+    g = helper.make_graph(nodes, "denotations", [vi_den("x", (2, 3), "IMAGE", ("DATA_BATCH", "DATA_CHANNEL"))],
+                          [vi_den("y", (2, 3), "", ("", "DATA_FEATURE"))], initializer=[w],
+                          value_info=[vi_den("w_den", (2, 3), "TENSOR", ("FILTER_OUT_CHANNEL", "FILTER_IN_CHANNEL")), vi_den("h", (2, 3), "AUDIO", ("DATA_BATCH", ""))])
+    return helper.make_model(g, opset_imports=[helper.make_opsetid("", 18)], ir_version=10)
+
+
+def m_custom_commutative_name():
+    """A model-local function that merely SHARES its name with a commutative standard op (local::Mul computes a - 2*b) called
+    with swapped arguments; a float Sum whose operands are given in two orders."""
+    f = helper.make_function("local", "Mul", ["a", "b"], ["c"],
+                             [helper.make_node("Add", ["b", "b"], ["b2"], name="f_dbl"), helper.make_node("Sub", ["a", "b2"], ["c"], name="f_sub")],
+                             [helper.make_opsetid("", 18)])
+    nodes = [helper.make_node("Relu", ["x"], ["p"], name="relu"), helper.make_node("Neg", ["x"], ["q"], name="neg"),
+             helper.make_node("Mul", ["p", "q"], ["m1"], name="call_pq", domain="local"),
+             helper.make_node("Mul", ["q", "p"], ["m2"], name="call_qp", domain="local"),
+             helper.make_node("Mul", ["p", "q"], ["s1"], name="std_pq"), helper.make_node("Mul", ["q", "p"], ["s2"], name="std_qp"),
+             helper.make_node("Add", ["m1", "s1"], ["y0"], name="o0"), helper.make_node("Add", ["m2", "s2"], ["y1"], name="o1")]
+    g = helper.make_graph(nodes, "custom_commutative", [vi("x")], [vi("y0"), vi("y1")])
+    return helper.make_model(g, functions=[f], opset_imports=[helper.make_opsetid("", 18), helper.make_opsetid("local", 1)], ir_version=10)
+
+
+def m_inline_in_branch():
+    """A function called INSIDE an If branch; a value inside the function body carries the name of an outer value (`t`) that
+    the branch uses after the call."""
+    f = helper.make_function("local", "twice", ["a"], ["b"],
+                             [helper.make_node("Add", ["a", "a"], ["t"], name="f_add"), helper.make_node("Identity", ["t"], ["b"], name="f_id")],
+                             [helper.make_opsetid("", 18)])
+    then_g = helper.make_graph([helper.make_node("twice", ["x"], ["d"], name="call", domain="local"),
+                                helper.make_node("Add", ["d", "t"], ["t_out"], name="use_outer_t")], "then_call", [], [vi("t_out")])
+    else_g = helper.make_graph([helper.make_node("twice", ["t"], ["e0"], name="call2", domain="local"),
+                                helper.make_node("Sub", ["e0", "t"], ["e_out"], name="use_outer_t2")], "else_call", [], [vi("e_out")])
+    nodes = [helper.make_node("Neg", ["x"], ["t"], name="outer_t"),
+             helper.make_node("If", ["c"], ["y"], name="if0", then_branch=then_g, else_branch=else_g)]
+    g = helper.make_graph(nodes, "inline_in_branch", [vi("x"), helper.make_tensor_value_info("c", TensorProto.BOOL, [])], [vi("y")])
+    return helper.make_model(g, functions=[f], opset_imports=[helper.make_opsetid("", 18), helper.make_opsetid("local", 1)], ir_version=10)
+
+
+ALL.update({"denotations": m_denotations, "custom_commutative": m_custom_commutative_name, "inline_in_branch": m_inline_in_branch})
